@@ -10,6 +10,7 @@ import (
 	"github.com/go-logr/logr"
 	"github.com/wrgl/wrgl/pkg/objects"
 	"github.com/wrgl/wrgl/pkg/progress"
+	"github.com/wrgl/wrgl/pkg/verifhook"
 )
 
 func strSliceEqual(s1, s2 []string) bool {
@@ -92,6 +93,7 @@ func (d *Differ) diffRows(diffChan chan<- *objects.Diff, pt *progress.SingleTrac
 	pt.SetTotal(int64(d.tbl1.RowsCount + d.tbl2.RowsCount))
 	var current int64
 	err := iterateAndMatch(d.db1, d.db2, d.tbl1, d.tbl2, d.tblIdx1, d.tblIdx2, d.logger, func(pk, row1, row2 []byte, off1, off2 uint32) {
+		verifhook.Yield("diff.row")
 		current++
 		pt.SetCurrent(current)
 		if row2 != nil {
